@@ -54,7 +54,9 @@ func (p *Pool[T]) Get(size int) (T, int) {
 
 // Put takes x and its size for future reuse.
 func (p *Pool[T]) Put(x T, size int) {
-	if size < p.stepSize {
+	// only exact size classes may be reused: a shard must never hold an
+	// object smaller than the class Get() computes for it.
+	if size < p.stepSize || !pmath.IsPowerOfTwo(size) {
 		return
 	}
 
